@@ -161,6 +161,11 @@ def correspondence(ctx):
         {'src': 'import random\nitems = []\nprint("start")\nchosen = random.choice(items)\nprint("unreachable")\n', 'inputs': [], 'calls': []},
         {'src': 'import statistics\nimport json\ndef average(xs):\n    total = 0\n    return statistics.mean(xs)\ndef parse(t):\n    return json.loads(t)\n'
                 'print(average([1, 2, 3]))\n', 'inputs': [], 'calls': [['average', ['[]']], ['parse', ["'{oops'"]], ['average', ['[4, 6]']]]},
+        # the result of one call handed on to the next (a long list, an object whose own repr fails)
+        {'src': 'def big():\n    return list(range(200))\ndef second(xs):\n    return [10, 20, 30][xs[1]]\ndef ident(x):\n    return x\n'
+                'class Shy:\n    def __repr__(self):\n        raise RuntimeError("no repr")\n    def size(self):\n        return 3\n'
+                'def shy():\n    return Shy()\ndef measure(s):\n    return s.size()\n', 'inputs': [],
+         'calls': [['second', ['@big()']], ['measure', ['@shy()']], ['second', ['@big()']]]},
         # several arguments that cannot be pasted as source (each needs its own temporary)
         {'src': 'def merge(a, b):\n    return sorted(a | b)\ndef cat(a, b, c=None):\n    return a + b + (c or [])\n', 'inputs': [],
          'calls': [['merge', ['frozenset({1, 2})', 'frozenset({3})']], ['cat', ['list(range(100))', 'list(range(100, 200))']],
